@@ -139,3 +139,7 @@ Definition all_equal (l : list V) : bool :=
   match l with [] => true | x :: r => forallb (V_eqb x) r end.
 Definition mon_segments : monitor_t := fun suite i o =>
   if name_is suite "segments.meta" then Some (all_equal (vl o)) else None.
+
+(** C20: the same scenario against differently loaded schemas gives identical observations *)
+Definition mon_dual : monitor_t := fun suite i o =>
+  if name_is suite "dual.meta" then Some (all_equal (vl o)) else None.
